@@ -53,6 +53,16 @@ void w_gset_raw(uint64_t nulltable, uint64_t numFields, uint8_t* pdu, uint64_t f
 }
 
 /* 1 when this world stores the most significant byte first */
+/* argument-evaluation bookkeeping of the generated thunks (see gen.py: W_A / W_CHK) */
+#ifndef W_TLS
+#define W_TLS
+#endif
+W_TLS unsigned long w_ev;
+unsigned long w_ev_bad;
+const char* w_ev_name;
+uint64_t w_ev_mismatches(void) { return w_ev_bad; }
+uint64_t w_ev_last(uint8_t* out, uint64_t cap) { uint64_t i = 0; for (; w_ev_name && w_ev_name[i] && i + 1 < cap; i++) out[i] = (uint8_t)w_ev_name[i]; if (cap) out[i] = 0; return i; }
+
 /* data model of this world: sizeof(int), sizeof(long), sizeof(void*) as decimal digits */
 uint64_t w_world_model(void) { return (uint64_t)(sizeof(int) * 100 + sizeof(long) * 10 + sizeof(void*)); }
 
